@@ -248,6 +248,8 @@ def has_long_const(d):
         return any(has_long_const(v['tree']) for v in d['vars'] if v['tree']) or any(has_long_const(e) for e in d['exprs'])
     if not isinstance(d, list) or not d:
         return False
+    if isinstance(d[0], list):      # entry list of a literal vector/matrix: every element is a tree
+        return any(has_long_const(x) for x in d)
     if d[0] == 'C':
         return abs(d[1]) > 2 ** 40 or d[2] > 2 ** 30
     if d[0] == 'Cx':
